@@ -73,9 +73,26 @@ func vfLgGovTx(w *vfLedger, bi *types.BlockHeaderInfo, rcpt int, payload string,
 }
 
 // shapes: 0 stake, 1 unstake (fresh storage), 2 createName (no owner), 3 setOwner(B), 4 setOwner(sender),
-// 5 createName after owner := B, 6 createName after owner := sender, 7 stake then (system balance arbitrary) unstake
+// 5 createName after owner := B, 6 createName after owner := sender, 7 stake then (system balance arbitrary) unstake,
+// 8 updateName(N -> B) of a name the sender registered in an earlier block (no owner of aergo.name),
+// 9 the same after owner := B in this block, 10 createName when an EARLIER block set owner := B,
+// 11 updateName when an earlier block set owner := B.
+// "after owner := X" (5, 6, 9): name.SetContractOwner ran earlier in the same block (staged storage); 10, 11: the owner
+// entry is in the committed storage of aergo.name.
+var vfLgGovNames = []string{"stake", "unstake-fresh", "createName", "setOwner-other", "setOwner-self", "createName.owner-set",
+	"createName.owner-is-sender", "unstake", "updateName", "updateName.owner-set", "createName.owner-committed", "updateName.owner-committed"}
+
 func vfLgGov(mode int, ob string) {
-	shape := vfLgPick("gov", vf.Param("govMask", 0xff), 8)
+	shape := vfLgPick("gov", vf.Param("govMask", 0xfff), 12)
+	vfLgNames = nil
+	switch shape {
+	case 8, 9:
+		vfLgNames = []vfLgNameEntry{{vfLgTheName, vfLgSender, vfLgSender}}
+	case 10:
+		vfLgNames = []vfLgNameEntry{{types.AergoName, vfLgOther, vfLgName}}
+	case 11:
+		vfLgNames = []vfLgNameEntry{{types.AergoName, vfLgOther, vfLgName}, {vfLgTheName, vfLgSender, vfLgSender}}
+	}
 	ver := int32(vfLgPick("ver", vf.Param("verMask", 0x1c), 6))
 	fee.DisableZeroFee()
 	pubNet = true
@@ -89,7 +106,7 @@ func vfLgGov(mode int, ob string) {
 
 	// set-up of the name owner for shapes 5/6 through the real name.SetContractOwner (moves the name account's
 	// balance to the owner and stages the name storage); done BEFORE the pre-observation
-	if shape == 5 || shape == 6 {
+	if shape == 5 || shape == 6 || shape == 9 {
 		nmAcc, err := vfLgAccount(w, vfLgName)
 		if err != nil {
 			vf.Fail("harness-setup")
@@ -117,8 +134,10 @@ func vfLgGov(mode int, ob string) {
 		rcpt, payload = vfLgSystem, `{"Name":"v1stake"}`
 	case 1:
 		rcpt, payload = vfLgSystem, `{"Name":"v1unstake"}`
-	case 2, 5, 6:
+	case 2, 5, 6, 10:
 		rcpt, payload = vfLgName, `{"Name":"v1createName","Args":["`+vfLgTheName+`"]}`
+	case 8, 9, 11:
+		rcpt, payload = vfLgName, `{"Name":"v1updateName","Args":["`+vfLgTheName+`","`+addrB+`"]}`
 	case 3:
 		rcpt, payload = vfLgName, `{"Name":"v1setOwner","Args":["`+addrB+`"]}`
 	case 4:
@@ -180,6 +199,7 @@ func vfLgGov(mode int, ob string) {
 		return
 	}
 	vf.Reach(ob + ".success")
+	vf.Reach(ob + ".success." + vfLgGovNames[shape]) // every shape must have a successful execution (vacuity)
 	// governance is free of charge: no fee, no reward
 	vf.Assert(dReward.Sign() == 0, ob+".free")
 	vf.Assert(len(rc.FeeUsed) == 0, ob+".free")
@@ -207,11 +227,11 @@ func vfLgGov(mode int, ob string) {
 		dTotal := new(big.Int).Sub(new(big.Int).SetBytes(pre.total), new(big.Int).SetBytes(post.total))
 		vf.Assert(dTotal.Cmp(gain) == 0, ob+".move")
 		vf.Assert(gain.Sign() >= 0, ob+".move")
-	case 2:
+	case 2, 8:
 		// name fee: A -> aergo.name
 		vf.Assert(lostA.Cmp(amt) == 0, ob+".move")
 		vf.Assert(new(big.Int).Sub(post.acc.bal[vfLgName], pre.acc.bal[vfLgName]).Cmp(amt) == 0, ob+".move")
-	case 5:
+	case 5, 9, 10, 11:
 		// name fee: A -> owner B
 		vf.Assert(lostA.Cmp(amt) == 0, ob+".move")
 		vf.Assert(new(big.Int).Sub(post.acc.bal[vfLgOther], pre.acc.bal[vfLgOther]).Cmp(amt) == 0, ob+".move")
